@@ -77,7 +77,7 @@ def prepare(ch):
     prep.interrupt = ch.draw(4)
     g = Gen(ch, cfg, "")
     items = g.items(ch.draw(9), falsy=True)
-    prep.src = g.src(items, ("agen", "aiter_cls", "aiterable", "aiter_noclose", "agen", "aiter_cls", "sync_iter", "list"))
+    prep.src = g.src(items, ("agen", "aiter_cls", "aiterable", "aiter_noclose", "agen", "aiter_full", "sync_iter", "list"))
     ops = []
     depth = 1
     for _ in range(ch.between(1, 6)):
@@ -189,14 +189,36 @@ def run_block(prep, st, mode, pos, interrupts):
             return []  # neutral context by design: the "handle" is the iterator itself
         out_ = []
         for h in hs:
-            try:
-                await h.__anext__()
-                out_.append("item")
-            except StopAsyncIteration:
-                out_.append("stop")
-            except BaseException as err:  # noqa
-                out_.append(type(err).__name__)
+            out_.append(await probe_dead(h))
         return out_
+
+    async def probe_dead(h):
+        """A handle whose scope is over yields nothing - neither through anext nor through asend / athrow"""
+        try:
+            await h.__anext__()
+            return "item"
+        except StopAsyncIteration:
+            pass
+        except BaseException as err:  # noqa
+            return type(err).__name__
+        pulls = src.n_pulls
+        if hasattr(h, "asend"):
+            try:
+                await h.asend(None)
+                return "item_via_asend"
+            except StopAsyncIteration:
+                pass
+            except BaseException as err:  # noqa
+                return "asend:" + type(err).__name__
+        if hasattr(h, "athrow"):
+            try:
+                await h.athrow(KeyError("thrown into a dead handle"))
+            except BaseException as err:  # noqa
+                if type(err).__name__ == "Cancel":
+                    raise
+        if src.n_pulls != pulls or any(e[0] == "athrow" for e in sim.log):
+            return "reached_underlying"
+        return "stop"
 
     async def run_ops(ops, start, handles, left):
         i = start
@@ -291,11 +313,9 @@ def run_block(prep, st, mode, pos, interrupts):
                 res["left"].append(i)
                 # the inner scope is over: its handle is dead, the outer ones are not
                 if prep.src.flavour != "aiter_noclose":
-                    try:
-                        await inner_h.__anext__()
-                        res["problems"].append(("inner_handle_alive_after_scope", i))
-                    except StopAsyncIteration:
-                        pass
+                    state = await probe_dead(inner_h)
+                    if state != "stop":
+                        res["problems"].append(("inner_handle_alive_after_scope", i, state))
                 if underlying_closed():
                     res["inside_closed"] = True
             else:  # leave
@@ -454,7 +474,7 @@ def run_prepared(prep, st, ctx):
                 out.violate("C08.underlying_closed_inside_block", sig, describe())
             if any(x != "stop" for x in (res["handles_after"] or [])):
                 out.violate("C08.handle_yields_after_exit", sig, describe())
-            if fl in ("aiter_cls", "aiterable"):
+            if fl in ("aiter_cls", "aiterable", "aiter_full"):
                 if src.n_aclose != 1:
                     out.violate("C08.underlying_not_closed_exactly_once", sig + ("count=%d" % src.n_aclose,), describe())
             elif fl == "agen":
